@@ -45,5 +45,6 @@ def run(ctx):
     R3_.r03_17_tag_selects_against_generic_members(ctx)
     from . import round3 as R3c
     R3c.r13_10_tag_collisions(ctx, 'R03.18')
+    S.r02_9_requiredness(ctx, 'R03.19')
     from . import memo_rules as M
     M.memo_sound(ctx, 'R03.M')
